@@ -20,6 +20,23 @@ from .progdb import AnalysisError, Program
 VERIF = os.path.dirname(os.path.dirname(os.path.abspath(__file__)))
 
 
+_PLAIN_DECORATORS = ("property", "staticmethod", "classmethod", "setter",
+                     "getter", "deleter", "abstractmethod", "overload",
+                     "wraps", "lru_cache", "cache", "cached_property",
+                     "dataclass", "total_ordering", "contextmanager",
+                     "unique", "final", "override", "no_type_check")
+
+
+def _program_decorated(fn) -> bool:
+    """the function carries a decorator that is not one of the standard
+    library's descriptor / bookkeeping decorators"""
+    for d in getattr(fn, "decorators", ()) or ():
+        base = str(d).split("(")[0].split(".")[-1]
+        if base not in _PLAIN_DECORATORS:
+            return True
+    return False
+
+
 @dataclass
 class Obligation:
     rule: str                 # C17.2
@@ -63,6 +80,17 @@ class Ctx:
     def ob(self, rule: str, site, ok: bool, msg: str, key: Optional[str] =
            None, nontrivial: bool = True, evidence: bool = True,
            **facts) -> bool:
+        if not ok and evidence:
+            # what a function wrapped by a decorator of the program does is
+            # its body *and* the wrapper (a confirmation asked, a guard
+            # checked, an argument normalised before the body runs): a
+            # missing piece in the body alone is no evidence
+            fn_ = getattr(site, "func", None) if hasattr(site, "where") \
+                else (site if hasattr(site, "qualname") else None)
+            if fn_ is not None and _program_decorated(fn_):
+                evidence = False
+                msg = (f"[{fn_.qualname} is wrapped by a decorator of the "
+                       f"program, not looked through] " + msg)
         if not ok and not evidence:
             # the rule did not find the shape it knows and has no positive
             # evidence of a deviation either: it declines (exit 2), it does
